@@ -14,6 +14,7 @@ This private submodule is *not* intended for importation by downstream callers.
 '''
 
 # ....................{ IMPORTS                            }....................
+from beartype.claw._package._clawpkgmake import make_conf_hookable
 from beartype.claw._package.clawpkgtrie import (
     remove_beartype_pathhook_unless_packages_trie)
 from beartype.typing import (
@@ -86,6 +87,15 @@ def beartyping(
         claw_lock,
         claw_state,
     )
+
+    # Beartype configuration actually registered by the call to the
+    # beartype_all() function performed below, which internally coerces the
+    # passed configuration into a hookable configuration. The test performed on
+    # exiting this context compares the currently registered configuration
+    # against this (rather than the passed) configuration; comparing against
+    # the passed configuration would almost never succeed, in which case the
+    # hook registered by this context would *NEVER* be unregistered.
+    conf = make_conf_hookable(conf)
 
     # Prior global beartype configuration registered by a prior call to the
     # beartype_all() function if any *OR* "None" otherwise.
